@@ -17,6 +17,8 @@ func checkC06(c *Ctx) {
 	r.Rule("R05.3", "(shared with C05) the quoting routine behind every quoted attribute value lets no control byte through: appendQuotedWith appends only the quote, \\xHH of an invalid byte and the output of appendEscapedRune, which copies a rune verbatim only under a printability test")
 	r.Rule("R09.2", "(shared with C09) the layout depends on the configuration in force, not on earlier records: nothing on the print path stores to package-level state (a tag or padding computed for one width is not kept for another)")
 	r.Rule("R17.6", "(shared with C17) the level tag of a given width: every tag literal and every tag a registration stores under width n has n characters")
+	r.Rule("R08.1", "(shared with C08) what a record says was logged by this call: nothing on the print path writes memory that outlives the call other than the pooled objects of this call")
+	r.Rule("R08.2", "(shared with C08) attribute lists that are sorted/compacted in place or appended to belong to this call, never to a logger, handler, group or caller")
 	r.Rule("R06.4", "no pooled encoder field is read stale in colored mode (engine E10): remaining lines, colours and the end-of-line flag of a previous record cannot surface")
 	r.Assume("messages contain no escape bytes and no HTML-like markup (the property's domain for hygiene/layout); the markup translator of the dependency is treated as text")
 	mode := Mode{false, false}
@@ -34,6 +36,7 @@ func checkC06(c *Ctx) {
 		c06SGR(c, p, m, mr)
 		c06Layout(c, p, m, mr)
 		padUnbounded(c, p)
+		c08Stores(c, p, m)
 		c05Quoting(c, p, m, mr)
 		c09Globals(c, p, m)
 		c17Tags(c, p, m)
@@ -164,8 +167,11 @@ func c06Layout(c *Ctx, p *Prog, m *Model, mr *ModeReach) {
 				a := cs.Common().Args
 				if s, ok := constString(a[len(a)-3]); ok && s == " " {
 					if n, ok := constInt(a[len(a)-2]); ok && n == 4 {
-						okPad = true
-						pad = cs
+						// the text indented is the remaining lines as split off the message, untransformed
+						if _, isF := isFieldLoadOf(a[len(a)-4], "PrintCtx", "restLines"); isF {
+							okPad = true
+							pad = cs
+						}
 					}
 				}
 			}
